@@ -1,29 +1,18 @@
 import JL.Generated.Fns
-import JL.Lemmas.TieAuto
-import JL.Lemmas.TieB
+import JL.Lemmas.TieLoops
 import JL.Tie.parse_float
 /-! tie: `parse_float_mul`, as translated from the crate's current source, is the model's function - for every input -/
 namespace JL.Tie
-open JL
+open JL JL.Lemmas.TieLoops
+set_option linter.unusedSimpArgs false  -- which of the listed facts are used depends on how the source is spelled
 
-/-- one step of the model's fold -/
-def mulStep (acc : F64) (v : Json) : Option F64 :=
-  match JsOp.parseFloat v with
-  | some n => some (F64.mul acc n)
-  | none => none
-
-theorem parseFloatMul_eq (items : List Json) : JsOp.parseFloatMul items = items.foldlM mulStep (F64.one) := rfl
-
-/- Two ways of going over the operands are recognised: a `fold` over the converted operands whose accumulator is a `Result`
-(`TieB.fold_opt_tie`), and a `for` loop that returns at the first failing conversion (`TieAuto.for_opt`). Either way the body
-is arbitrary: that it performs one step of the model's fold is closed by `tie_close`. -/
-theorem parse_float_mul (items : List Json) : Gen.parse_float_mul items = JsOp.parseFloatMul items := by
+/- see `abstract_max`: whichever way the accumulation is spelled, `rs_loop_opt` brings it to `List.foldlM mulStep` -/
+theorem parse_float_mul (vals : List Json) : Gen.parse_float_mul vals = JsOp.parseFloatMul vals := by
+  unfold Gen.parse_float_mul
   rw [parseFloatMul_eq]
-  simp only [Gen.parse_float_mul]
-  first
-    | (refine Lemmas.TieB.fold_opt_tie _ _ mulStep ?_ ?_ _ _ <;> intros <;>
-        tie_close [mulStep, parse_float] splitting JsOp.parseFloat)
-    | (rw [Lemmas.TieAuto.for_opt mulStep] <;> intros <;>
-        tie_close [mulStep, parse_float] splitting JsOp.parseFloat List.foldlM)
+  rs_loop_opt mulStep
+  intro a v
+  simp only [parse_float, mulStep]
+  cases JsOp.parseFloat v <;> simp [rs]
 
 end JL.Tie
